@@ -2,7 +2,7 @@ use std::{num::ParseIntError, str::FromStr};
 
 use crate::{
     util::{
-        constants::{BUG_MSG, SECS_PER_DAY},
+        constants::{BUG_MSG, DAYS_TO_1970_I64, SECS_PER_DAY},
         date::convert::{weekdays_in_month, year_doy_to_days, year_month_to_doy},
     },
     DateTime, DateUtilities,
@@ -43,6 +43,11 @@ impl TransitionRule {
         let std_offset = parse_tz_string_offset(&mut cursor)?;
 
         if cursor.empty() {
+            if std_offset.abs() >= SECS_PER_DAY as i32 {
+                return Err(TimeZoneError::InvalidTzFile(
+                    "UTC offset in footer has to be smaller than 24 hours",
+                ));
+            }
             return Ok(Some(TransitionRule::Fixed(LocalTimeType::new(
                 -std_offset,
                 false,
@@ -56,6 +61,12 @@ impl TransitionRule {
             Some(_) => parse_tz_string_offset(&mut cursor)?,
             None => return Err(TimeZoneError::InvalidTzFile("Invalid footer")),
         };
+
+        if std_offset.abs() >= SECS_PER_DAY as i32 || dst_offset.abs() >= SECS_PER_DAY as i32 {
+            return Err(TimeZoneError::InvalidTzFile(
+                "UTC offset in footer has to be smaller than 24 hours",
+            ));
+        }
 
         cursor.read_tag(b",")?;
 
@@ -83,20 +94,20 @@ impl TransitionRule {
 pub(super) struct AlternateLocalTimeType {
     pub(super) std: LocalTimeType,
     std_end: RuleDay,
-    std_end_time: u32,
+    std_end_time: i32,
     pub(super) dst: LocalTimeType,
     dst_end: RuleDay,
-    dst_end_time: u32,
+    dst_end_time: i32,
 }
 
 impl AlternateLocalTimeType {
     pub(super) fn new(
         std: LocalTimeType,
         std_end: RuleDay,
-        std_end_time: u32,
+        std_end_time: i32,
         dst: LocalTimeType,
         dst_end: RuleDay,
-        dst_end_time: u32,
+        dst_end_time: i32,
     ) -> Self {
         Self {
             std,
@@ -108,43 +119,39 @@ impl AlternateLocalTimeType {
         }
     }
 
-    pub(super) fn local_std_end_timestamp(&self, timestamp: i64) -> i64 {
-        rule_to_local_timestamp(&self.std_end, self.std_end_time as i32, timestamp)
+    pub(super) fn local_std_end_timestamp(&self, timestamp: i64) -> Option<i64> {
+        rule_to_local_timestamp(&self.std_end, self.std_end_time, timestamp)
     }
 
-    pub(super) fn local_dst_end_timestamp(&self, timestamp: i64) -> i64 {
-        rule_to_local_timestamp(&self.dst_end, self.dst_end_time as i32, timestamp)
+    pub(super) fn local_dst_end_timestamp(&self, timestamp: i64) -> Option<i64> {
+        rule_to_local_timestamp(&self.dst_end, self.dst_end_time, timestamp)
     }
 }
 
-fn rule_to_local_timestamp(start: &RuleDay, time: i32, timestamp: i64) -> i64 {
+/// Returns the local timestamp of the given rule in the year of the provided timestamp. Returns `None` if the rule doesn't exist in that year or is out of range
+fn rule_to_local_timestamp(start: &RuleDay, time: i32, timestamp: i64) -> Option<i64> {
+    let seconds = timestamp.checked_add(DAYS_TO_1970_I64 * SECS_PER_DAY as i64)?;
+    let year = DateTime::from_seconds(seconds).ok()?.year();
+
     let date_days = match start {
-        RuleDay::JulianDayWithoutLeap(doy) => {
-            let year = DateTime::from_timestamp(timestamp).year();
-            year_doy_to_days(year, *doy, true).unwrap()
-        }
+        RuleDay::JulianDayWithoutLeap(doy) => year_doy_to_days(year, *doy, true).ok()?,
         RuleDay::JulianDayWithLeap(doy) => {
-            let year = DateTime::from_timestamp(timestamp).year();
-            year_doy_to_days(year, doy + 1, false).unwrap()
+            year_doy_to_days(year, doy.checked_add(1)?, false).ok()?
         }
         RuleDay::MonthWeekDay(month, week, day) => {
-            let year = DateTime::from_timestamp(timestamp).year();
-
-            let weekdays_in_month = weekdays_in_month(year, *month as u32, *day);
+            let weekdays_in_month = weekdays_in_month(year, *month as u32, *day)?;
 
             let day_of_month = match week {
-                5 => weekdays_in_month.last().unwrap(),
-                _ => &weekdays_in_month[*week as usize - 1],
+                5 => *weekdays_in_month.last()?,
+                _ => *weekdays_in_month.get((*week as usize).checked_sub(1)?)?,
             };
 
-            let (start, _) = year_month_to_doy(year, *month as u32).unwrap();
-            year_doy_to_days(year, start + day_of_month, false).unwrap()
+            let (start, _) = year_month_to_doy(year, *month as u32).ok()?;
+            year_doy_to_days(year, start + day_of_month, false).ok()?
         }
     };
-    let time = time as i64;
-    DateTime::from_seconds(date_days as i64 * SECS_PER_DAY as i64 + time)
-        .unwrap()
-        .timestamp()
+    let local_seconds = date_days as i64 * SECS_PER_DAY as i64 + time as i64;
+    Some(DateTime::from_seconds(local_seconds).ok()?.timestamp())
 }
 
 fn remove_designation(cursor: &mut Cursor) -> Result<(), TimeZoneError> {
@@ -241,15 +248,21 @@ fn parse_int<T: FromStr<Err = ParseIntError>>(bytes: &[u8]) -> Result<T, TimeZon
 fn parse_tz_string_rule(
     cursor: &mut Cursor,
     string_extensions: bool,
-) -> Result<(RuleDay, u32), TimeZoneError> {
+) -> Result<(RuleDay, i32), TimeZoneError> {
     let day = match cursor.get_next()? {
         b'J' => {
             cursor.read_exact(1).expect(BUG_MSG);
             let day = parse_int(cursor.read_while(|c: &u8| c.is_ascii_digit()))?;
+            if !(1..=365).contains(&day) {
+                return Err(TimeZoneError::InvalidTzFile("Invalid julian day in footer"));
+            }
             RuleDay::JulianDayWithoutLeap(day)
         }
         byte if byte.is_ascii_digit() => {
-            let day = parse_int(cursor.read_while(|c: &u8| c.is_ascii_digit())).expect(BUG_MSG);
+            let day = parse_int(cursor.read_while(|c: &u8| c.is_ascii_digit()))?;
+            if day > 365 {
+                return Err(TimeZoneError::InvalidTzFile("Invalid julian day in footer"));
+            }
             RuleDay::JulianDayWithLeap(day)
         }
         b'M' => {
@@ -262,6 +275,12 @@ fn parse_tz_string_rule(
             cursor.read_exact(1)?;
             let day = parse_int(cursor.read_while(|c| c.is_ascii_digit()))?;
 
+            if !(1..=12).contains(&month) || !(1..=5).contains(&week) || day > 6 {
+                return Err(TimeZoneError::InvalidTzFile(
+                    "Invalid month, week or day in footer",
+                ));
+            }
+
             RuleDay::MonthWeekDay(month, week, day)
         }
         _ => return Err(TimeZoneError::InvalidTzFile("Invalid footer")),
@@ -270,9 +289,9 @@ fn parse_tz_string_rule(
     let time = if !cursor.empty() && cursor.get_next().expect(BUG_MSG) == b'/' {
         cursor.read_exact(1).expect(BUG_MSG);
         if string_extensions {
-            parse_tz_string_offset_extended(cursor)? as u32
+            parse_tz_string_offset_extended(cursor)?
         } else {
-            parse_tz_string_offset(cursor)? as u32
+            parse_tz_string_offset(cursor)?
         }
     } else {
         2 * 3600
